@@ -11,6 +11,7 @@ Distances between points (a `sqrt`) are *inputs* of the builder models: the harn
 passes the very floats the implementation computed, as exact dyadic rationals.
 -/
 import NipyVerif.Model.Common
+import NipyVerif.Gen.C11Grid
 namespace NipyVerif.C11
 
 /-- `(source, target, weight)` : one row of `edges` with its entry of `weights` -/
@@ -147,12 +148,11 @@ def seedsZero (seeds : List Nat) (d : List (Option Rat)) : Bool :=
 def certOK (g : Graph) (seeds : List Nat) (d : List (Option Rat)) : Bool :=
   seedsZero seeds d && relaxedAll g d
 
-/-- certificate for a Voronoi labelling: the multi-seed distances and the single-seed
-distances of every seed are certified, unlabelled = infinite distance, and the vertex is
+/-- certificate for a Voronoi labelling: the multi-seed distances `dS` and the single-seed
+distances `dI` of every seed are certified, unlabelled = infinite distance, and the vertex is
 as close to the seed of its label as to the whole seed set. -/
-def voronoiCert (g : Graph) (seeds : List Nat) (lab : List (Option Nat)) : Bool :=
-  let dS := dijkstra g seeds
-  let dI := seeds.map (fun s => (s, dijkstra g [s]))
+def voronoiCertWith (g : Graph) (seeds : List Nat) (lab : List (Option Nat)) (dS : List (Option Rat))
+    (dI : List (Nat × List (Option Rat))) : Bool :=
   certOK g seeds dS &&
   dI.all (fun p => certOK g [p.1] p.2) &&
   (List.range g.V).all (fun v =>
@@ -162,6 +162,9 @@ def voronoiCert (g : Graph) (seeds : List Nat) (lab : List (Option Nat)) : Bool 
         match dI[i]? with
         | none => false
         | some p => (dS.getD v none).isSome && p.2.getD v none == dS.getD v none)
+
+def voronoiCert (g : Graph) (seeds : List Nat) (lab : List (Option Nat)) : Bool :=
+  voronoiCertWith g seeds lab (dijkstra g seeds) (seeds.map (fun s => (s, dijkstra g [s])))
 
 /-! ### Connected components: `lil_cc` -/
 
@@ -341,9 +344,15 @@ def crossKnn (n1 n2 : Nat) (sq : List (List Rat)) (k : Nat) (tiny : Rat) : List 
     ((((List.range n2).map (fun j => getM sq i j)).mergeSort (fun a b => a ≤ b)).take (min k n2)).map
       (fun d => max d tiny))
 
-/-- linear codes `lxyz · nn_row` -/
-def codes (pts : List (List Int)) (row : List Int) : List Int :=
-  pts.map (fun p => (List.zipWith (· * ·) p row).sum)
+/-- a lattice point -/
+abbrev Pt := Int × Int × Int
+
+/-- value at `m` of an entry `c0 + c1 m + c2 m²` of a direction code -/
+def evalPoly (m : Int) (p : Gen.Poly) : Int := p.1 + p.2.1 * m + p.2.2 * m ^ 2
+
+/-- `np.dot(lxyz, nn_row)` for one point: the linear code along direction `R` -/
+def code (m : Int) (R : Gen.Row) (p : Pt) : Int :=
+  p.1 * evalPoly m R.1.1 + p.2.1 * evalPoly m R.1.2.1 + p.2.2 * evalPoly m R.1.2.2
 
 /-- consecutive entries of the sorted codes differing by exactly `l1`: pairs of point indices -/
 def adjacentPairs (l1 : Int) : List (Int × Nat) → List (Nat × Nat)
@@ -351,36 +360,43 @@ def adjacentPairs (l1 : Int) : List (Int × Nat) → List (Nat × Nat)
       (if b.1 - a.1 = l1 then [(a.2, b.2)] else []) ++ adjacentPairs l1 (b :: rest)
   | _ => []
 
-/-- `create_edges` for one family of direction codes -/
-def createEdges (pts : List (List Int)) (nn : List (List Int)) (l1 : Int) : List (Nat × Nat × Int) :=
-  nn.flatMap (fun row =>
-    let sorted := ((codes pts row).zipIdx).mergeSort (fun a b => a.1 ≤ b.1)
-    (adjacentPairs l1 sorted).flatMap (fun p => [(p.1, p.2, l1), (p.2, p.1, l1)]))
+/-- the pairs one direction code contributes (`argsort`, then neighbours in the sorted order) -/
+def rowPairs (m : Int) (pts : List Pt) (l1 : Int) (R : Gen.Row) : List (Nat × Nat) :=
+  adjacentPairs l1 (((pts.map (code m R)).zipIdx).mergeSort (fun a b => a.1 ≤ b.1))
 
-def colMin (pts : List (List Int)) (c : Nat) : Int :=
-  match pts.map (fun p => p.getD c 0) with
+/-- `create_edges` for one family of direction codes -/
+def createEdges (m : Int) (pts : List Pt) (nn : List Gen.Row) (l1 : Int) : List (Nat × Nat × Int) :=
+  nn.flatMap (fun R => (rowPairs m pts l1 R).flatMap (fun p => [(p.1, p.2, l1), (p.2, p.1, l1)]))
+
+def minL : List Int → Int
   | [] => 0
   | x :: xs => xs.foldl min x
 
-def colMax (pts : List (List Int)) (c : Nat) : Int :=
-  match pts.map (fun p => p.getD c 0) with
+def maxL : List Int → Int
   | [] => 0
   | x :: xs => xs.foldl max x
 
+/-- `lxyz = xyz - xyz.min(0)` -/
+def shiftPts (xyz : List Pt) : List Pt :=
+  let m0 := minL (xyz.map (·.1)); let m1 := minL (xyz.map (·.2.1)); let m2 := minL (xyz.map (·.2.2))
+  xyz.map (fun p => (p.1 - m0, p.2.1 - m1, p.2.2 - m2))
+
+/-- `m = 3 * lxyz.max(0).sum() + 2` (coefficients regenerated from the source) -/
+def gridBase (pts : List Pt) : Int :=
+  Gen.baseA * (maxL (pts.map (·.1)) + maxL (pts.map (·.2.1)) + maxL (pts.map (·.2.2))) + Gen.baseB
+
+/-- the rows `graph_3d_grid(xyz, k)` produces, before its final reordering:
+    `(i, j, squared length)` -/
+def gridEdges (xyz : List Pt) (k : Nat) : List (Nat × Nat × Int) :=
+  let pts := shiftPts xyz
+  let m := gridBase pts
+  createEdges m pts Gen.n6 Gen.l6 ++ (if k ≥ 18 then createEdges m pts Gen.n18 Gen.l18 else [])
+    ++ (if k = 26 then createEdges m pts Gen.n26 Gen.l26 else [])
+
 /-- `graph_3d_grid(xyz, k)`: edges `(i, j, squared length)`, listed in lexicographic order
     (the implementation's final reordering is not part of any result) -/
-def grid3d (xyz : List (List Int)) (k : Nat) : List (Nat × Nat × Int) :=
-  let mins := [colMin xyz 0, colMin xyz 1, colMin xyz 2]
-  let pts := xyz.map (fun p => List.zipWith (· - ·) p mins)
-  let m : Int := 3 * (colMax pts 0 + colMax pts 1 + colMax pts 2) + 2
-  let n6 := [[1, m, m ^ 2], [m ^ 2, 1, m], [m, m ^ 2, 1]]
-  let n18 := [[1 + m, 1 - m, m ^ 2], [1 + m, m - 1, m ^ 2], [m ^ 2, 1 + m, 1 - m],
-              [m ^ 2, 1 + m, m - 1], [1 - m, m ^ 2, 1 + m], [m - 1, m ^ 2, 1 + m]]
-  let n26 := [[1 + m + m ^ 2, 1 - m, 1 - m ^ 2], [1 + m + m ^ 2, m - 1, 1 - m ^ 2],
-              [1 + m + m ^ 2, 1 - m, m ^ 2 - 1], [1 + m + m ^ 2, m - 1, m ^ 2 - 1]]
-  let e := createEdges pts n6 1 ++ (if k ≥ 18 then createEdges pts n18 2 else [])
-            ++ (if k = 26 then createEdges pts n26 3 else [])
-  e.mergeSort (fun a b => a.1 < b.1 || (a.1 == b.1 && a.2.1 ≤ b.2.1))
+def grid3d (xyz : List Pt) (k : Nat) : List (Nat × Nat × Int) :=
+  (gridEdges xyz k).mergeSort (fun a b => a.1 < b.1 || (a.1 == b.1 && a.2.1 ≤ b.2.1))
 
 /-! ### Line protocol -/
 
@@ -426,7 +442,9 @@ def run : Toks → String
           else if s.any (· ≥ g.V) then "error:indexError"
           else
             let l := voronoi g s
-            " ".intercalate (l.map fmtOptNat) ++ " | " ++ okStr (voronoiCert g s l)
+            let dI := s.map (fun x => (x, dijkstra g [x]))
+            " | ".intercalate ([" ".intercalate (l.map fmtOptNat), okStr (voronoiCertWith g s l (dijkstra g s) dI)]
+              ++ dI.map (fun p => " ".intercalate (p.2.map fmtOptRat)))
       | none => "bad-op"
   | "cc" :: rest =>
       match runP pGraph rest with
@@ -503,7 +521,9 @@ def run : Toks → String
       | some (k, t, n2, m) => " | ".intercalate ((crossKnn m.length n2 m k t).map fmtRats)
       | none => "bad-op"
   | "grid" :: rest =>
-      match runP (do let k ← pNat; let n ← pNat; let p ← pMany (pMany pInt 3) n; pure (k, p)) rest with
+      match runP (do let k ← pNat; let n ← pNat
+                     let p ← pMany (do let x ← pInt; let y ← pInt; let z ← pInt; pure ((x, y, z) : Pt)) n
+                     pure (k, p)) rest with
       | some (k, p) =>
           if k ≠ 6 ∧ k ≠ 18 ∧ k ≠ 26 then "error:valueError"
           else
